@@ -387,7 +387,9 @@ def rule_miss_reasons(ctx):
             r.instance(lookup=nid, returns=fmt(p.ret)[:40], cause=cause)
             if cause is None:
                 r.violate(nid, 'miss-without-cause', fmt(p.ret)[:40],
-                          'a path of %s reports a miss although the entry exists and no expiry/watermark comparison is true' % nid,
+                          ('a path of %s ends the iteration (returns None) although the underlying map iterator is not exhausted: an expired entry must be skipped, not end '
+                           'the iteration -- live entries after it are never reported' % nid) if 'Iterator' in nid else
+                          ('a path of %s reports a miss although the entry exists and no expiry/watermark comparison is true' % nid),
                           where=ctx.where(nid), path=['%s == %s' % (fmt(t), v) for t, v in lits][:14],
                           expected='miss only if key absent or entry expired / invalidated')
     r.require_floor(8 if has_sync else 4, 'miss paths')
